@@ -329,6 +329,32 @@ theorem stopped_step (names : Nat → Name) (s s' : State) (e : Event)
     | (injection hs with hs; subst hs; inv_norm; grind)
     | cases hs
 
+/-- once `c.err` holds the reader's reason (failure of the output stream), the reader is at its
+very next step — `terminated.Store(true)` — or has taken it -/
+def Reported (s : State) : Prop := s.err = some .fail → (s.rpc = .failTerm ∨ s.terminated = true)
+
+theorem casErr_closed_fail (o : Option Err) (h : casErr o .closed = some .fail) : o = some .fail := by
+  cases o with
+  | none => simp [casErr] at h
+  | some x => simpa [casErr] using h
+
+theorem reported_step (names : Nat → Name) (s s' : State) (e : Event)
+    (h : Reported s) (hs : step names s e = some s') : Reported s' := by
+  unfold Reported at *
+  cases e with
+  | sSetErr i =>
+    simp only [step] at hs
+    split at hs
+    · injection hs with hs; subst hs
+      intro he
+      exact h (casErr_closed_fail s.err he)
+    · cases hs
+  | _ =>
+    simp only [step] at hs <;> (repeat' split at hs) <;>
+    first
+    | (injection hs with hs; subst hs; inv_norm; grind [casErr])
+    | cases hs
+
 /-! ### progress measure -/
 
 /-- remaining own steps of a `sendRequest` call once the client is gone -/
